@@ -21,6 +21,11 @@ type C08Case struct {
 	Umask int `json:"umask,omitempty"`
 	// Debconf: the deb-only debconf members are configured too ("templates", "config", "both"), and all scripts
 	Debconf string `json:"debconf,omitempty"`
+	// TypeSpelling: the type of the first entry is written like this in the document (another letter case, padded);
+	// judged only when the tree builds it: then it means what its lower-case form means
+	TypeSpelling string `json:"type_spelling,omitempty"`
+	// IPKAlts: ipk alternatives whose targets are the destinations of the entries (metadata next to the typing)
+	IPKAlts bool `json:"ipk_alternatives,omitempty"`
 }
 
 // c08Names: destination names with a blank, '#', a backslash, non-ASCII bytes, a glob character and a leading dot.
@@ -160,6 +165,29 @@ func init() {
 					if !yield(C08Case{Part: "names", List: []model.Entry{e, c08Entry("config", "", 2, false)}}) {
 						return
 					}
+				}
+			}
+			// types written in another letter case or padded: refused, or meaning what the lower-case form means
+			for _, typ := range c08Types {
+				if typ == "" {
+					continue
+				}
+				for _, sp := range []string{strings.ToUpper(typ), strings.ToUpper(typ[:1]) + typ[1:], " " + typ, typ + " "} {
+					if !yield(C08Case{Part: "type-spelling", TypeSpelling: sp, List: []model.Entry{c08Entry(typ, "", 1, false), c08Entry("", "", 2, false)}}) {
+						return
+					}
+				}
+			}
+			for _, sp := range []string{"Config|NoReplace", "config|NoReplace", "config | noreplace", "Config|MissingOk"} {
+				typ := strings.ToLower(strings.ReplaceAll(sp, " ", ""))
+				if !yield(C08Case{Part: "type-spelling", TypeSpelling: sp, List: []model.Entry{c08Entry(typ, "", 1, false), c08Entry("", "", 2, false)}}) {
+					return
+				}
+			}
+			// ipk alternatives that point at the package's own configuration files (metadata: the files stay registered)
+			for _, typ := range []string{"config", "config|noreplace", "config|missingok", ""} {
+				if !yield(C08Case{Part: "ipk-alternatives", IPKAlts: true, List: []model.Entry{c08Entry(typ, "", 1, false), c08Entry("config", "", 2, false)}}) {
+					return
 				}
 			}
 			// destinations below the directories whose files some tools type by location (documentation, licences, manual
@@ -331,6 +359,20 @@ func checkC08(env *engine.Env, ci any) engine.Outcome {
 			}
 		}
 	}
+	if c.IPKAlts {
+		var alts []any
+		for i, e := range c.List {
+			alts = append(alts, map[string]any{"priority": 100 + i, "target": e.Dst, "link_name": fmt.Sprintf("/usr/bin/alt%d", i)})
+		}
+		doc["ipk"] = map[string]any{"alternatives": alts}
+	}
+	if c.TypeSpelling != "" {
+		if l, ok := doc["contents"].([]any); ok && len(l) > 0 {
+			if m, ok := l[0].(map[string]any); ok {
+				m["type"] = c.TypeSpelling
+			}
+		}
+	}
 	text := doc.YAML()
 	var keys []string
 	// judge applies the typing oracle to one built package of format f.
@@ -346,6 +388,9 @@ func checkC08(env *engine.Env, ci any) engine.Outcome {
 		}
 		if want.Unclear != "" || want.Collision || want.OtherErr != "" {
 			return
+		}
+		if err != nil && c.TypeSpelling != "" {
+			return // this tree does not take the spelling: nothing to judge
 		}
 		if err != nil {
 			viol("typing:build-error:"+f+":"+kindsOf(c.List), "valid configuration, packaging failed: %v", err)
